@@ -132,6 +132,9 @@ func suiteReplicas(c *Ctx) {
 		n = 3000
 	}
 	for i := 0; i < n; i++ {
+		if !c.Begin("replicas", i) {
+			continue
+		}
 		var in, out sx.V
 		var tags []string
 		in, out, tags = guarded(func() (sx.V, sx.V, []string) { return runReplicaHistory(c.Seed, i) })
